@@ -52,12 +52,24 @@ Norm(d) == [package |-> d.package, services |-> El(d.services), messages |-> {[n
             enums |-> {[name |-> e.name, values |-> El(e.values)] : e \in El(d.enums)}]
 GenBad == (IF Norm(D.go3) # Norm(D.src3) THEN {Bad("generated-go-differs-from-proto-source", "api/v3", "")} ELSE {})
           \cup (IF Norm(D.goA) # Norm(D.srcA) THEN {Bad("generated-go-differs-from-proto-source", "api/v3alpha", "")} ELSE {})
+(* ---- the generated gRPC stubs are bound to the descriptor's methods ---- *)
+\* D.grpc3 / D.grpcA: recorded by driving every generated client stub (path handed to ClientConn.Invoke) and every
+\* generated server handler (info.FullMethod) once: both must be "/<package>.<Service>/<Method>" for every method.
+GrpcBad(d, g, tag) == UNION {LET full == d.package \o "." \o s.name IN
+     (IF g.service # full THEN {Bad("grpc-service-name-differs-from-descriptor", tag, g.service)} ELSE {})
+     \cup UNION {LET want == "/" \o full \o "/" \o m.name
+                     bs == {b \in El(g.methods) : b.name = m.name} IN
+                 IF bs = {} THEN {Bad("grpc-method-missing-in-generated-stubs", tag, m.name)}
+                 ELSE UNION {(IF b.client # want THEN {Bad("grpc-client-stub-sends-another-path", tag, m.name)} ELSE {})
+                             \cup (IF b.server # want THEN {Bad("grpc-server-handler-reports-another-method", tag, m.name)} ELSE {}) : b \in bs}
+              : m \in El(s.methods)} : s \in El(d.services)}
 (* ---- resolver system identifiers ---- *)
 SysNum(d, n) == (CHOOSE v \in El(EnumOf(d, "System").values) : v.name = n).number
 ConstBad == {Bad("resolver-system-constant-differs-from-enum", c[1], c[2]) : c \in {c \in {<<"NPM", "NPM">>, <<"Maven", "MAVEN">>, <<"PyPI", "PYPI">>, <<"UnknownSystem", "SYSTEM_UNSPECIFIED">>} :
                D.consts[c[1]] # SysNum(Go3, c[2]) \/ D.consts[c[1]] # SysNum(GoA, c[2])}}
 StaticBad == UNION {MsgBad(m.name) : m \in El(Go3.messages)} \cup UNION {EnumBad(e.name) : e \in El(Go3.enums)}
              \cup UNION {MethodBad(x) : x \in Methods(Go3)} \cup GenBad \cup ConstBad
+             \cup GrpcBad(D.go3, D.grpc3, "api/v3") \cup GrpcBad(D.goA, D.grpcA, "api/v3alpha")
 
 (* ---- the wire walk ---- *)
 VARIABLES phase, meth, side, path, ctype
